@@ -40,7 +40,8 @@ def run(rep, tier):
         for a in (False, True):
             sfx = "a" if a else ""
             for (kl, sl, il, ol) in ((16, 0, 0, 32), (16, 8, 5, 33), (70, 33, 0, 40), (1, 64, 9, 65)) if tier == "quick" else \
-                    ((16, 0, 0, 32), (16, 8, 5, 33), (70, 33, 0, 40), (1, 64, 9, 65), (0, 0, 0, 1), (32, 32, 32, 96), (16, 65, 1, 31)):
+                    ((16, 0, 0, 32), (16, 8, 5, 33), (70, 33, 0, 40), (1, 64, 9, 65), (0, 0, 0, 1), (32, 32, 32, 96), (16, 65, 1, 31),
+                     (33, 31, 7, 64), (64, 63, 8, 33), (65, 33, 33, 70), (8, 1, 64, 32), (100, 100, 100, 100)):
                 cases.append((js, cname, layout, "case_hkdf", (a, kl, sl, il, ol),
                               "hkdf%s key %d salt %d info %d output %d" % (sfx, kl, sl, il, ol), "ascon_hkdf" + sfx))
             for (cnt, posn, il, chunks) in ((255, 32, 3, (70,)), (254, 32, 0, (32, 33, 5)), (255, 10, 5, (22, 32, 1, 0, 4)),
@@ -53,8 +54,8 @@ def run(rep, tier):
                     continue        # 255 blocks take ~10 s per case
                 cases.append((js, cname, layout, "case_hkdf_oneshot_limit", (a, ol), "hkdf%s one-shot output %d" % (sfx, ol),
                               "ascon_hkdf" + sfx))
-            for kl in (0, 16, 33):
-                for cl in (0, 9):
+            for kl in ((0, 8, 16, 33) if tier == "quick" else (0, 1, 7, 8, 9, 16, 31, 32, 33, 65)):
+                for cl in ((0, 8, 9) if tier == "quick" else (0, 1, 7, 8, 9, 16, 17, 33)):
                     for ol in (16, 32, 41):
                         cases.append((js, cname, layout, "case_kdf", (a, kl, cl, ol), "kdf%s key %d custom %d output %d" % (sfx, kl, cl, ol),
                                       "ascon_kdf" + sfx))
